@@ -164,7 +164,9 @@ class UnimodalPdf(DensityEstimator):
         x = linspace(lwr, upr, 1000)
         p = self(x)
 
-        mu = simpson(p * x, x=x)
+        # integrate about the mode so that the error in the mean does not
+        # grow with the distance of the data from zero
+        mu = self.mode + simpson(p * (x - self.mode), x=x)
         var = simpson(p * (x - mu) ** 2, x=x)
         skw = simpson(p * (x - mu) ** 3, x=x) / var**1.5
         kur = (simpson(p * (x - mu) ** 4, x=x) / var**2) - 3.0
